@@ -314,6 +314,19 @@ def collect(ctx, n_ir, n_sdd):
     work += [("sweep", (rng.choice(["workers", "n", "batch_size"]), 5, "int")), ("sweep", ("label", "x", "str")),
              ("sweep", ("clip", rng.choice([1e+20, 2.5e+16, 0.5]), "float"))]
     agg = {"n": 0, "hops": 0, "clean": 0, "sdd": 0, "rest": 0}
+    dist = {"rest_params_per_description": {}, "rest_entry_kinds": {}, "rest_with_return": 0, "ir_styles": {}, "ir_params": {}}
+    for kind, payload in work:
+        if kind == "rest":
+            k = str(len(payload["params"]))
+            dist["rest_params_per_description"][k] = dist["rest_params_per_description"].get(k, 0) + 1
+            dist["rest_with_return"] += payload["ret"] is not None
+            for _n, e in payload["params"]:
+                ek = "doc+typ" if e[0] is not None and e[1] is not None else ("doc" if e[0] is not None else "typ")
+                dist["rest_entry_kinds"][ek] = dist["rest_entry_kinds"].get(ek, 0) + 1
+        elif kind == "ir":
+            dist["ir_styles"][payload[1]] = dist["ir_styles"].get(payload[1], 0) + 1
+            k = str(len(payload[0].get("params") or {}))
+            dist["ir_params"][k] = dist["ir_params"].get(k, 0) + 1
     items, corr = [], []
     for r in run_cases(worker, [work[i:i + 8] for i in range(0, len(work), 8)], chunk=1):
         if "harness_error" in r:
@@ -323,6 +336,7 @@ def collect(ctx, n_ir, n_sdd):
             agg[k] += r[k]
         items += r["items"]
         corr += r["corr"][:3]
+    agg["distribution"] = dist
     return agg, items, corr, work
 
 
@@ -354,6 +368,7 @@ def run(ctx):
                 "set_default_doc/quote model; (doc, 1..5 parameters, return entry) of the ReST theorem's domain + random texts over a token alphabet "
                 "for the scanner transcription",
         "interfaces": agg["n"], "round_trips": agg["hops"], "round_trips_without_any_difference": agg["clean"],
+        "input_distribution": agg["distribution"],
         "set_default_doc_cases": agg["sdd"], "rest_model_cases": agg["rest"], "model_disagreements": len(corr),
         "traces_validated_against_impl": agg["sdd"] + 4 * agg["rest"],
         "samples": [T.jsonable(work[0][1][0])],
